@@ -131,7 +131,8 @@ class C13(PropertyCheck):
             calls.append((f'to_str({s}.to_generator().sum())', 'str'))
         dists = ['normal_distribution(0.0, 1.0)', 'normal_distribution(1e308, 1e308)', 'exp_distribution(1e-300)', 'gamma_distribution(1e300, 1e-300)',
                  'lognormal_distribution(700.0, 50.0)', 'weibull_distribution(1e-3, 1e300)', 'beta_distribution(1e-300, 1e-300)',
-                 'students_t_distribution(0.0, 1.0, 1.0)', 'rectangular_distribution(-1e308, 1e308)', 'triangular_distribution(-1e308, 1e308, 0.0)']
+                 'students_t_distribution(0.0, 1.0, 1.0)', 'rectangular_distribution(-1e308, 1e308)', 'triangular_distribution(-1e308, 1e308, 0.0)',
+                 'fisher_snedecor_distribution(2.0, 3.0)', 'fisher_snedecor_distribution(1e300, 1e-300)', 'fisher_snedecor_distribution(1e-300, 5.0)']
         for d in dists:
             for f in ['mean()', 'variance()', 'skewness()', 'std_dev()', 'pdf(0.0)', 'pdf(1e308)', 'cdf(1e308)', 'cdf(-1e308)', 'quantile(0.0)', 'quantile(1.0)',
                       'quantile(0.5)', 'z_score(1e308)']:
